@@ -60,6 +60,7 @@ int  sim_task_count(void);
 bool sim_task_done(int idx);
 bool sim_task_runnable(int idx);
 void sim_task_step(int idx);                          /* run task idx until it yields */
+extern int sim_last_task;                            /* slot of the most recently created thread */
 extern int sim_deadlock;                              /* set when a join cannot make progress */
 extern char sim_deadlock_info[256];
 extern long sim_hal_calls;                            /* watchdog: HAL calls since last reset of this counter */
